@@ -8,7 +8,9 @@ import (
 
 	"github.com/paulsonkoly/chess-3/board"
 	"github.com/paulsonkoly/chess-3/chess"
+	"github.com/paulsonkoly/chess-3/move"
 	"github.com/paulsonkoly/chess-3/search"
+	"github.com/paulsonkoly/chess-3/transp"
 
 	"verif/harness/ev"
 	"verif/harness/ref"
@@ -37,6 +39,21 @@ type Case struct {
 	TTBytes  int       `json:"tt_bytes"`
 	Requests []Request `json:"requests_since_clear"`
 	Params   []string  `json:"spsa_params,omitempty"`
+	// WarmFEN: before the requests, the same engine searched this other position (depth 4): state
+	// left behind by a search of a DIFFERENT root (PV buffer, tables, histories).
+	WarmFEN string `json:"warm_up_fen,omitempty"`
+	// Poison: transposition-table entries written for the root hash (and its successors) before
+	// every request, the way a 16-bit signature collision leaves another position's move there.
+	Poison []PoisonEntry `json:"tt_poison,omitempty"`
+}
+
+// PoisonEntry is one planted table entry: Path = moves from the root to the position it is keyed to.
+type PoisonEntry struct {
+	Path  []string `json:"path"`
+	Move  int      `json:"move"`
+	Depth int      `json:"depth"`
+	Value int      `json:"value"`
+	Type  int      `json:"type"`
 }
 
 func (q Request) options(stop <-chan struct{}) []search.Option {
@@ -134,6 +151,69 @@ type Campaign struct {
 
 var ttSizes = []int{32, 64, 32000, 1 << 20, 1 << 20, 16 << 20}
 
+// plant writes the poison entries into the engine's table.
+func plant(s *search.Search, root *Root, poison []PoisonEntry) {
+	for _, pe := range poison {
+		b, err := root.Board()
+		if err != nil {
+			return
+		}
+		cur := root.Pos
+		ok := true
+		for _, name := range pe.Path {
+			m, found := findMove(&cur, name)
+			if !found {
+				ok = false
+				break
+			}
+			b.MakeMove(move.Move(m))
+			cur = cur.Make(m)
+			cur = cur.Normalised()
+		}
+		if ok {
+			s.VerifTT().Insert(b.Hash(), s.VerifGen(), chess.Depth(pe.Depth), 0, move.Move(pe.Move), chess.Score(pe.Value), transp.Type(pe.Type))
+		}
+	}
+}
+
+// makePoison picks entries for the root and some successors: moves that are pseudo-legal but
+// illegal there, moves of other positions, and arbitrary encodings.
+func makePoison(rng *rand.Rand, root *Root) []PoisonEntry {
+	var out []PoisonEntry
+	add := func(path []string, p *ref.Pos) {
+		legal := map[ref.Move]bool{}
+		for _, m := range p.Legal() {
+			legal[m] = true
+		}
+		var bad []ref.Move
+		for _, m := range p.Pseudo() {
+			if !legal[m] {
+				bad = append(bad, m)
+			}
+		}
+		var mv int
+		switch {
+		case len(bad) > 0 && rng.IntN(3) != 0:
+			mv = int(bad[rng.IntN(len(bad))])
+		case rng.IntN(2) == 0:
+			mv = rng.IntN(1 << 15)
+		default:
+			mv = rng.IntN(1 << 12)
+		}
+		val := []int{0, 50, -50, 9990, -9990, 300, -300}[rng.IntN(7)]
+		out = append(out, PoisonEntry{Path: path, Move: mv, Depth: rng.IntN(12), Value: val, Type: rng.IntN(3)})
+	}
+	add(nil, &root.Pos)
+	l := root.Pos.Legal()
+	for k := 0; k < 3 && len(l) > 0; k++ {
+		m := l[rng.IntN(len(l))]
+		nx := root.Pos.Make(m)
+		nx = nx.Normalised()
+		add([]string{m.String()}, &nx)
+	}
+	return out
+}
+
 func (c *Campaign) one(cs *Case, root *Root, s *search.Search, q Request, lc *ev.Local, wk int) {
 	b, err := root.Board()
 	if err != nil {
@@ -141,6 +221,10 @@ func (c *Campaign) one(cs *Case, root *Root, s *search.Search, q Request, lc *ev
 	}
 	cs.Requests = append(cs.Requests, q)
 	c.R.Current(wk, cs)
+	if len(cs.Poison) > 0 {
+		plant(s, root, cs.Poison)
+		lc.C["searches_on_poisoned_table"]++
+	}
 	before := b.VerifSnapshot()
 	res := Exec(s, b, q)
 	after := b.VerifSnapshot()
@@ -231,6 +315,12 @@ func (c *Campaign) Go() {
 		tt := ttSizes[rng.IntN(len(ttSizes))]
 		s := search.New(tt)
 		cs := &Case{Kind: "mixed", RootKind: kind, Start: root.Start.FEN(), Moves: root.MoveNames(), TTBytes: tt, Params: c.Params}
+		if rng.IntN(2) == 0 {
+			warmUp(s, cs, rng, tt, lcs[wk])
+		}
+		if rng.IntN(3) == 0 {
+			cs.Poison = makePoison(rng, &root)
+		}
 		n := 2 + rng.IntN(6)
 		for k := 0; k < n; k++ {
 			c.one(cs, &root, s, randRequest(rng, tt), lcs[wk], wk)
@@ -253,7 +343,13 @@ func (c *Campaign) Go() {
 		tt := []int{32000, 1 << 20, 64}[rng.IntN(3)]
 		s := search.New(tt)
 		cs := &Case{Kind: "abort-sweep", RootKind: kind, Start: root.Start.FEN(), Moves: root.MoveNames(), TTBytes: tt, Params: c.Params}
-		clearEach := rng.IntN(2) == 0
+		if rng.IntN(3) == 0 {
+			warmUp(s, cs, rng, tt, lcs[wk])
+		}
+		if rng.IntN(4) == 0 {
+			cs.Poison = makePoison(rng, &root)
+		}
+		clearEach := rng.IntN(2) == 0 && cs.WarmFEN == ""
 		for k := 0; k <= c.SweepK; k++ {
 			if clearEach {
 				s.Clear()
@@ -262,12 +358,36 @@ func (c *Campaign) Go() {
 			c.one(cs, &root, s, Request{Nodes: k, NoOutput: tt < 32000}, lcs[wk], wk)
 			lcs[wk].C["abort_sweep_points"]++
 		}
+		// sparse continuation of the sweep: abort points deep inside later iterations (aspiration
+		// re-searches, null-move subtrees) where the dense range does not reach
+		if !root.Final() {
+			for j := 0; j < c.SweepK/2; j++ {
+				k := c.SweepK + 1 + rng.IntN(40*c.SweepK)
+				c.one(cs, &root, s, Request{Nodes: k, NoOutput: tt < 32000}, lcs[wk], wk)
+				lcs[wk].C["abort_sweep_sparse_deep_points"]++
+			}
+		}
 		r.DistinctStr("sweep" + root.Pos.Key() + fmt.Sprint(len(root.Moves), tt))
 		if i%37 == 0 {
 			r.Sample(map[string]any{"kind": "abort-sweep", "root_kind": kind, "root": root.Pos.FEN(), "history_plies": len(root.Moves), "K": c.SweepK, "tt_bytes": tt, "clear_between": clearEach})
 		}
 		r.Merge(lcs[wk])
 	})
+}
+
+// warmUp lets the engine search another position first (a PV-producing depth-4 search).
+func warmUp(s *search.Search, cs *Case, rng *rand.Rand, tt int, lc *ev.Local) {
+	fr, _ := RandomRoot(rng, "fresh")
+	if fr.Final() {
+		return
+	}
+	b, err := fr.Board()
+	if err != nil {
+		return
+	}
+	cs.WarmFEN = fr.Pos.FEN()
+	Exec(s, b, Request{Depth: 4, Nodes: 30000, NoOutput: tt < 32000})
+	lc.C["engines_warmed_up_on_another_root"]++
 }
 
 // Replay re-executes a recorded case: a fresh engine of the recorded size, the recorded requests
@@ -287,8 +407,16 @@ func Replay(c *Case, judge Judge) {
 	}
 	root := NewRoot(start, ms)
 	s := search.New(c.TTBytes)
+	if c.WarmFEN != "" {
+		if wb, err := board.FromFEN(c.WarmFEN); err == nil {
+			Exec(s, wb, Request{Depth: 4, Nodes: 30000, NoOutput: c.TTBytes < 32000})
+		}
+	}
 	for i, q := range c.Requests {
 		b, _ := root.Board()
+		if len(c.Poison) > 0 {
+			plant(s, &root, c.Poison)
+		}
 		before := b.VerifSnapshot()
 		res := Exec(s, b, q)
 		after := b.VerifSnapshot()
